@@ -1,5 +1,6 @@
 SPECIFICATION TSpec
 CONSTANTS
+  TwoPaths = FALSE
   MaxLen = 100000
 POSTCONDITION Post
 CHECK_DEADLOCK FALSE
